@@ -61,6 +61,17 @@ theorem load_save_restores (flag : Bool) (legacy : Option C) (src dst : List (Li
     rw [← e]; exact this
   rw [load_saved flag legacy src dst d hg.1 hs hdst, map_restore_eq src dst hg.1 hids]
 
+/-- "… so a layout rebuilt from the saved PAGE XML plus logits re-decodes to the same transcriptions and exports the same ALTO
+text": the PAGE XML round trip keeps the line ids in order (C01.import_export), so the rebuilt layout `dst` has the ids of `src`;
+after loading the saved logits EVERY function of the lines (greedy / beam decoding of the dense logits, the ALTO words, the
+confidences) gives what it gives on the original layout. -/
+theorem rebuilt_layout_same_outputs {β : Type} (out : List (Line L K C) → β) (flag : Bool) (legacy : Option C)
+    (src dst : List (Line L K C)) (d : Dict Nat (Val L K C)) (hg : GoodIds src) (hs : genLogits flag src = .ok d)
+    (hids : dst.map (·.id) = src.map (·.id)) :
+    (load legacy d dst).map out = .ok (out src) := by
+  rw [load_save_restores flag legacy src dst d hg hs hids]
+  rfl
+
 /-- Lines absent from the file are left untouched; lines present get the file's payload (partial
 files: the target may have more or fewer lines than the file). -/
 theorem load_partial (flag : Bool) (legacy : Option C) (src dst : List (Line L K C))
